@@ -443,7 +443,7 @@ def main():
     if hasattr(mod, "evidence_extra"):
         ev["coverage"].update(mod.evidence_extra(ctx) or {})
     # development runs (--skip-proof: mutation trials etc.) must not overwrite the registered evidence
-    evpath = os.path.join(EVID, "dev", pid + ".json") if a.skip_proof else os.path.join(EVID, pid + ".json")
+    evpath = os.path.join(EVID, "dev", pid + ".json") if (a.skip_proof or a.replay) else os.path.join(EVID, pid + ".json")
     os.makedirs(os.path.dirname(evpath), exist_ok=True)
     json.dump(ev, open(evpath, "w"), indent=1)
     if unmodelled:
